@@ -626,3 +626,13 @@ PROPS["C10"]["rule"] += (" apisvc: one APIService applied through the real Appli
 PROPS["C13"]["domains"].append("prunestep")
 PROPS["C13"]["rule"] += (" prunestep: the real PruneTask / Pruner / filter chain on ONE object under every combination of manager table, lifecycle annotation, "
                          "owner, dry-run strategy and request outcome (the annotation-removal UPDATE and the DELETE each succeed, fail or hit NotFound): exactly one result event.")
+
+_SYSREAL = (" sys-real: whole histories (apply, re-apply with prune, destroy; dependencies, apply-time mutation, keep / detach, finalizers, an object of an "
+            "unregistered type under SkipInvalid, a Deployment that never becomes Current) run with the library's REAL DefaultStatusWatcher — dynamic informers "
+            "over the fake cluster's LIST and WATCH — instead of the scripted watcher; the scripts of the input only describe what kstatus computes. Same run model; "
+            "agreement up to `realProj` (Pending wait events, the order inside a block of wait events and the event index of requests are the scheduler's); the "
+            "C13 and C12 predicates judge the implementation's stream as it is: grammar, one result per object, Timeout only after the configured time, channel "
+            "closed, no request and no open WATCH stream after it.")
+for _p in ("C12", "C13"):
+    PROPS[_p]["domains"].append("sys-real")
+    PROPS[_p]["rule"] += _SYSREAL
